@@ -374,39 +374,84 @@ pixel image does (`C01.resultShape_spec`). -/
 def sky_contains_shape_full : Prop :=
   ∀ (Sky α : Type) (r : SkyR Sky α) (q : QShape), r.containsShape q = q
 
-/-- refuted on the current tree (finding F203): `PointSkyRegion.contains` returns one bool for an array of
-two positions. -/
-theorem sky_contains_shape_full_refuted : ¬ sky_contains_shape_full := by
-  intro h
-  have := h Unit Unit (.point () Meta.empty Visual.empty) (some [2])
-  simp [SkyR.containsShape] at this
-
-/-- what the current code does, exactly: the shape of the positions when they are scalar or when some
-component answers through the pixel image; one scalar otherwise. -/
-theorem sky_contains_shape (r : SkyR Sky α) (q : QShape) :
-    r.containsShape q = if r.hasSized then q else none := by
+theorem containsShapeV_false (r : SkyR Sky α) (q : QShape) : r.containsShapeV false q = q := by
   induction r with
   | compound op a b m v iha ihb =>
-    simp only [SkyR.containsShape, SkyR.hasSized, iha, ihb]
+    simp only [SkyR.containsShapeV, iha, ihb]
+    cases q <;> rfl
+  | _ => simp [SkyR.containsShapeV]
+
+/-- **holds for the current code** (F203 repaired in b532b53): every class, compounds of any depth. -/
+theorem sky_contains_shape_full_holds : sky_contains_shape_full := fun _ _ r q => containsShapeV_false r q
+
+/-- the unrepaired variant (`PointSkyRegion.contains` returning one bool for an array of two positions)
+refutes the clause — kept as a checked theorem about that variant. -/
+theorem sky_contains_shape_unrepaired_refuted :
+    ¬ ∀ (Sky α : Type) (r : SkyR Sky α) (q : QShape), r.containsShapeV true q = q := by
+  intro h
+  have := h Unit Unit (.point () Meta.empty Visual.empty) (some [2])
+  simp [SkyR.containsShapeV] at this
+
+/-- what the unrepaired variant did, exactly: the shape of the positions when some component answers
+through the pixel image, one scalar otherwise. -/
+theorem sky_contains_shape_unrepaired (r : SkyR Sky α) (q : QShape) :
+    r.containsShapeV true q = if r.hasSized then q else none := by
+  induction r with
+  | compound op a b m v iha ihb =>
+    simp only [SkyR.containsShapeV, SkyR.hasSized, iha, ihb]
     by_cases ha : a.hasSized = true <;> by_cases hb : b.hasSized = true <;> cases q <;> simp [ha, hb]
-  | _ => simp [SkyR.containsShape, SkyR.hasSized]
-
-/-- partial: the decidable predicate that excludes exactly the failing input class — array positions
-asked of an expression built only from point / line / text regions. -/
-theorem sky_contains_shape_partial (r : SkyR Sky α) (q : QShape) (h : q = none ∨ r.hasSized = true) :
-    r.containsShape q = q := by
-  rw [sky_contains_shape]
-  rcases h with h | h
-  · subst h; cases r.hasSized <;> rfl
-  · simp [h]
-
-example : (none : QShape) = none ∨ (SkyR.point () Meta.empty (Visual.empty : Visual Unit)).hasSized = true :=
-  Or.inl rfl
-example : (some [2] : QShape) = none ∨
-    (SkyR.compound .or (.point () Meta.empty (Visual.empty : Visual ℚ)) (.circle () 1 Meta.empty Visual.empty)
-      Meta.empty Visual.empty).hasSized = true := Or.inr rfl
+  | _ => simp [SkyR.containsShapeV, SkyR.hasSized]
 
 end shape
+
+/-! ### sky → pixel → sky for a region given in ANOTHER frame than the WCS's (finding F204)
+
+`Sky` is a position together with the frame it is expressed in.  `pixel_to_world` always answers in the
+WCS's frame, so `toSky (toPix q) = q` fails for a `q` given in another frame, and the helper measures the
+scale along the north of the frame of the position it is handed.  Without the invertibility hypothesis the
+angular size that comes back is `size / scale(original position) * scale(returned position)`. -/
+
+section anyframe
+variable {Sky α : Type} [Field α] [LinearOrder α] [IsStrictOrderedRing α]
+
+/-- the size that comes back, exactly. -/
+theorem circle_roundtrip_size_any_frame (w : Wcs Sky α) (c : Sky) (r : α) (m : Meta) (v : Visual α) :
+    ((SkyR.circle c r m v).toPixel w).toSky w
+      = .circle (w.toSky (w.toPix c)) (r / (w.loc c).scale * (w.loc (w.toSky (w.toPix c))).scale) m v := by
+  simp only [SkyR.toPixel, PixR.toSky, Wcs.scaleAngle, metaOr_some, visualOr_some]
+
+end anyframe
+
+/-- full strength: the geometry survives sky → pixel → sky for EVERY sky region, in whatever frame its
+positions are given (no hypothesis that `toSky ∘ toPix` is the identity on framed positions). -/
+def sky_roundtrip_any_frame_full : Prop :=
+  ∀ (Sky α : Type) [Field α] [LinearOrder α] [IsStrictOrderedRing α] (w : Wcs Sky α), Regular w →
+    ∀ r : SkyR Sky α, ∀ c r0 m v, r = SkyR.circle c r0 m v →
+      ∃ c', ((r.toPixel w).toSky w) = SkyR.circle c' r0 m v
+
+/-- sky positions = a point with a frame tag (`true` = given in a frame other than the WCS's); the WCS maps
+both tags to the same pixel, answers with tag `false`, and its scale along the other frame's north is 2,
+along its own north 1 (a place where the projection is not conformal). -/
+def twoFrameWcs : Wcs (Pt ℚ × Bool) ℚ :=
+  ⟨fun q => q.1, fun p => (p, false), fun q => ⟨if q.2 then 2 else 1, ⟨0, 1⟩, 90⟩⟩
+
+/-- refuted: a circle of radius 6 given in the other frame comes back with radius 3. -/
+theorem sky_roundtrip_any_frame_full_refuted : ¬ sky_roundtrip_any_frame_full := by
+  intro h
+  have hreg : Regular twoFrameWcs :=
+    ⟨fun q => by cases q with | mk p t => cases t <;> simp [twoFrameWcs],
+     fun q => by simp [twoFrameWcs, Dir.IsUnit]⟩
+  obtain ⟨c', hc⟩ := h (Pt ℚ × Bool) ℚ twoFrameWcs hreg _ (⟨0, 0⟩, true) 6 Meta.empty Visual.empty rfl
+  rw [circle_roundtrip_size_any_frame] at hc
+  simp only [twoFrameWcs, SkyR.circle.injEq] at hc
+  norm_num at hc
+
+/-- partial: positions given in the WCS's own frame (`toSky (toPix q) = q`) — `roundtrip_sky_pix_sky`,
+`roundtrip_sky_pix_sky_exact` above; the decidable side condition on an input is "frame of the position =
+frame of the WCS". -/
+theorem sky_roundtrip_any_frame_partial {Sky α : Type} [Field α] [LinearOrder α] [IsStrictOrderedRing α]
+    (w : Wcs Sky α) (hs : ∀ q : Sky, w.toSky (w.toPix q) = q) (hr : Regular w) (r : SkyR Sky α) :
+    (r.toPixel w).toSky w = r := roundtrip_sky_pix_sky_exact w hs hr r
 
 /-! ### the full-strength meta / visual clauses (F2 fixed: they hold) -/
 
